@@ -204,7 +204,7 @@ package actions
 //@   ensures no_swallowed_failure: [C09] dbfailed() && !old(dbfailed()) ==> err != nil
 //@   modifies T:subscriptions:$live, S:dbfailed, S:wake_on_commit, E:uuid.UUID:, F:actions.PruneDeletedSubscriptions:*, F:actions.PruneCommonResults:*, F:actions.actionTimer:*
 //@   loop 1
-//@     invariant forall k int :: {ids[k]} 0 <= k && k <= idx ==> ids[k] == subs[k].ID
+//@     invariant forall k int :: {ids[k]} {subs[k]} 0 <= k && k <= idx ==> ids[k] == subs[k].ID
 //@     invariant len(ids) == len(subs)
 
 //@ func (*PruneDeletedTopics).Execute(a, ctx, tx) (err)
@@ -218,7 +218,7 @@ package actions
 //@   ensures no_swallowed_failure: [C09] dbfailed() && !old(dbfailed()) ==> err != nil
 //@   modifies T:topics:$live, T:subscriptions:dead_letter_topic_id$null, S:dbfailed, S:wake_on_commit, E:uuid.UUID:, F:actions.PruneDeletedTopics:*, F:actions.PruneCommonResults:*, F:actions.actionTimer:*
 //@   loop 1
-//@     invariant forall k int :: {ids[k]} 0 <= k && k <= idx ==> ids[k] == topics[k].ID
+//@     invariant forall k int :: {ids[k]} {topics[k]} 0 <= k && k <= idx ==> ids[k] == topics[k].ID
 //@     invariant len(ids) == len(topics)
 
 // ---- C14: the expiry sweep soft-deletes only live subscriptions whose expiry instant has passed.
@@ -237,7 +237,70 @@ package actions
 //@   ensures no_swallowed_failure: [C09] dbfailed() && !old(dbfailed()) ==> err != nil
 //@   modifies T:subscriptions:deleted_at, T:subscriptions:deleted_at$null, T:subscriptions:live$null, S:dbfailed, S:wake_on_commit, E:uuid.UUID:, F:actions.DeleteExpiredSubscriptions:*, F:actions.PruneCommonResults:*, F:actions.actionTimer:*
 //@   loop 1
-//@     invariant forall k int :: {ids[k]} 0 <= k && k <= idx ==> ids[k] == subs[k].ID
+//@     invariant forall k int :: {ids[k]} {subs[k]} 0 <= k && k <= idx ==> ids[k] == subs[k].ID
+//@     invariant len(ids) == len(subs)
+//@   loop 2
+//@     invariant forall k int :: {subs[k]} 0 <= k && k <= idx ==> wake_on_commit(subs[k].ID)
+
+// ---- C12: one live resource per name.
+
+// maps a database unique-violation to true (driver specific; racing creates are decided by the unique index)
+//@ func isSqlDuplicateKeyError(err) (result)
+//@   trusted
+//@   ensures result ==> err != nil
+
+//@ func findTopic(ctx, tx, name) (topic, err)
+//@   property C12
+//@   uses tables
+//@   requires tx != nil
+//@   ensures found: err == nil ==> topic != nil && topic_named(topic.ID, name)
+//@   ensures missing: err == ErrNotFound ==> (forall t Id :: !topic_named(t, name))
+//@   ensures no_swallowed_failure: [C09] dbfailed() && !old(dbfailed()) ==> err != nil
+//@   modifies S:dbfailed
+
+//@ func (*CreateTopic).Execute(a, ctx, tx) (err)
+//@   property C12
+//@   uses tables notifyspec
+//@   requires a != nil && tx != nil && unique_topic_names()
+//@   ensures created: err == nil ==> a.results != nil && (forall x Id :: x == a.results.ID ==> !old(topics.exists(x)) && topic_named(x, a.params.Name))
+//@   ensures was_free: err == nil ==> (forall t Id :: !old(topic_named(t, a.params.Name)))
+//@   ensures labels_stored: [C17] err == nil ==> topics.labels(a.results.ID) == a.params.Labels && !topics.labels$null(a.results.ID)
+//@   ensures already_exists: (exists t Id :: old(topic_named(t, a.params.Name))) ==> err != nil && (err == ErrExists || dbfailed())
+//@   ensures others_untouched: forall t Id :: old(topics.exists(t)) ==> topic_unchanged(t)
+//@   ensures only_one_row: forall t Id :: !old(topics.exists(t)) && topics.exists(t) ==> err == nil && t == a.results.ID
+//@   ensures still_unique: err == nil ==> unique_topic_names()
+//@   ensures no_swallowed_failure: [C09] dbfailed() && !old(dbfailed()) ==> err != nil
+//@   modifies T:topics:*, S:dbfailed, S:wake_on_commit, F:actions.CreateTopic:*, F:actions.createTopicResults:*, F:actions.actionTimer:*
+
+//@ func (*DeleteTopic).Execute(a, ctx, tx) (err)
+//@   property C12
+//@   uses tables notifyspec
+//@   requires a != nil && tx != nil
+//@   ensures deleted: err == nil ==> (forall t Id :: !topic_named(t, a.params.Name)) && (exists t Id :: old(topic_named(t, a.params.Name)))
+//@   ensures missing: (forall t Id :: !old(topic_named(t, a.params.Name))) ==> err != nil && (err == ErrNotFound || dbfailed())
+//@   ensures others_untouched: err == nil ==> (forall t Id :: !old(topic_named(t, a.params.Name)) ==> topic_unchanged(t))
+//@   ensures rows_stay: forall t Id :: topics.exists(t) == old(topics.exists(t)) && topics.name(t) == old(topics.name(t))
+//@   ensures snapshots_dropped: err == nil ==> (forall n Id :: snapshots.exists(n) ==> old(snapshots.exists(n)) && !old(topic_named(snapshots.topic_id(n), a.params.Name))) &&
+//@             (forall n Id :: old(snapshots.exists(n)) && !old(topic_named(snapshots.topic_id(n), a.params.Name)) ==> snapshots.exists(n))
+//@   ensures no_swallowed_failure: [C09] dbfailed() && !old(dbfailed()) ==> err != nil
+//@   modifies T:topics:deleted_at, T:topics:deleted_at$null, T:topics:live$null, T:snapshots:$live, S:dbfailed, S:wake_on_commit, E:uuid.UUID:, F:actions.DeleteTopic:*, F:actions.deleteTopicResults:*, F:actions.actionTimer:*
+//@   loop 1
+//@     invariant forall k int :: {ids[k]} {topics[k]} 0 <= k && k <= idx ==> ids[k] == topics[k].ID
+//@     invariant len(ids) == len(topics)
+
+//@ func (*DeleteSubscription).Execute(a, ctx, tx) (err)
+//@   property C12
+//@   uses tables notifyspec
+//@   requires a != nil && tx != nil
+//@   ensures deleted: err == nil ==> (forall s Id :: !sub_named(s, a.params.Name)) && (exists s Id :: old(sub_named(s, a.params.Name)))
+//@   ensures missing: (forall s Id :: !old(sub_named(s, a.params.Name))) ==> err != nil && (err == ErrNotFound || dbfailed())
+//@   ensures others_untouched: err == nil ==> (forall s Id :: !old(sub_named(s, a.params.Name)) ==> subscription_unchanged(s))
+//@   ensures rows_stay: forall s Id :: subscriptions.exists(s) == old(subscriptions.exists(s)) && subscriptions.name(s) == old(subscriptions.name(s))
+//@   ensures wakes: [C10] err == nil ==> (forall s Id :: old(sub_named(s, a.params.Name)) ==> wake_on_commit(s))
+//@   ensures no_swallowed_failure: [C09] dbfailed() && !old(dbfailed()) ==> err != nil
+//@   modifies T:subscriptions:deleted_at, T:subscriptions:deleted_at$null, T:subscriptions:live$null, S:dbfailed, S:wake_on_commit, E:uuid.UUID:, F:actions.DeleteSubscription:*, F:actions.deleteSubscriptionResults:*, F:actions.actionTimer:*
+//@   loop 1
+//@     invariant forall k int :: {ids[k]} {subs[k]} 0 <= k && k <= idx ==> ids[k] == subs[k].ID
 //@     invariant len(ids) == len(subs)
 //@   loop 2
 //@     invariant forall k int :: {subs[k]} 0 <= k && k <= idx ==> wake_on_commit(subs[k].ID)
